@@ -4,9 +4,9 @@ import recvlib, senderlib
 
 # property -> list of (session family, n sessions quick/thorough, channel family, maxn, n behaviours quick/thorough)
 PLANS = {
-    "C01": [("clean", 220, 2500, "clean", 99, None, None), ("wide", 10, None, "clean", 99, 10, None)],
+    "C01": [("clean", 220, 2500, "clean", 99, None, None), ("wide", 10, None, "clean", 99, 10, None), ("many", None, None, "clean", 99, 8, None)],
     "C02": [("small", 200, None, "subsets", 13, 5000, 60000), ("small", 120, 600, "dups", 8, 2500, 30000),
-            ("car", 40, 200, "subsets", 16, 2500, 30000), ("medium", 40, None, "rloss", 999, 300, 8000)],
+            ("car", 40, 200, "subsets", 16, 2500, 30000), ("medium", 40, None, "rloss", 999, 300, 8000), ("many", None, None, "rloss", 999, 40, None)],
     "C03": [("small", 200, None, "perms", 6, 4000, 60000), ("small", 200, None, "corrupt", 99, 3000, None),
             ("small", 100, 400, "dups", 8, 1500, 20000), ("car", 30, 120, "perms", 5, 1500, 20000),
             ("medium", 24, 160, "rloss", 999, 200, 5000)],
@@ -87,7 +87,7 @@ def main(ctx):
         behs = senderlib.sample(behs, nb, ctx.seed)
         label = "%s/%s" % (sfam, cfam)
         # sessions of thousands of packets: one behaviour per monitor run, so that they are judged in parallel
-        recvlib.run_rx(ctx, specs, infos, behs, label.replace("/", "-"), **({"chunk_size": 1} if sfam == "wide" else {}))
+        recvlib.run_rx(ctx, specs, infos, behs, label.replace("/", "-"), **({"chunk_size": 1} if sfam == "wide" else {"chunk_size": 4} if sfam == "many" else {}))
         fams[label] = {"session_shapes_enumerated": total_sessions, "sessions_recorded": len(specs),
                        "schedules_enumerated_by_tlc": total, "replayed": len(behs),
                        "exhaustive_over_recorded_sessions": len(behs) == total}
